@@ -17,13 +17,31 @@ What is proved, for tokens of ANY length and result types of ANY width:
 * `width_estimate` — the scanner's `num_bits` exceeds the bit length of the value for every base,
   every length and every leading digit (decimal: with the repaired `⌈3.322 n⌉`, from the single
   fact `10^1000 < 2^3322`); `old_estimate_refuted` records why the repair (/repo 433014e) was needed.
-* `parse_exact_wide_partial`, `parse_exact_builtin_partial` — the run-time `parse<T>` / the
-  compile-time parser applied to a well-formed token return the value the token denotes.
-  *Partial*: they assume `Located`, i.e. that `scan_string` found base, sign, first numeral and digit
-  count of the token (a decidable statement relating `CnlModel.Parse.scanString` to the grammar of
-  `CnlSpec.Token`).  The symbolic proof of `Located` for every well-formed token (a list-combinatorics
-  argument about `idxOf / count / take / drop`) is not done; the driver evaluates `Located` on every
-  token of every run instead (it is part of the oracle), and `FullParseExact` states the goal.
+* `scan_exact` / `located_of_wellFormed` / `full_parse_exact` — **the scanner/grammar link, symbolically**:
+  for every well-formed token (grammar of `CnlSpec.Token`) of ANY length outside three corners,
+  `scan_string` returns the grammar's sign, base, stride, digit count, (for unsigned tokens) number of
+  fractional digits, a `num_bits` that bounds the magnitude, and behind `first_numeral` stand exactly
+  the grammar's digits (separators and radix point skipped) — i.e. `Located` holds.  Proof: the
+  grammar is turned into inductive relations (`ParseProofs.DS`, `ParseProofs.Shape`), `idxOf / count /
+  take / drop` of `scan_base` are computed on them by induction over the character list
+  (`ParseProofs.token_scanned`).
+* `parse_exact_wide`, `parse_exact_builtin`, `parse_exact_unsigned` (+ `_fits`) — the run-time
+  `parse<T>` / the compile-time parser applied to a well-formed token return the value the token
+  denotes, with no `Located` hypothesis: multi-limb results modulo `2^bits`, signed built-in results
+  (≥ 64 bits) exactly and without undefined behaviour when the type holds the value, unsigned built-in
+  results (`uint64`, `unsigned __int128`) modulo `2^bits` (exactly when the value fits).  These cover the
+  signed one-digit octal tokens too (`-07` is read as the decimal `07`: same value).
+  `parse_exact_*_of_located` are the former `_partial` forms (any `p` with `Located`).
+* The three corners (`ParseProofs.OctSep`, `SignedOctalDigit`, `SignedTrailingPoint`, all decidable):
+  `0'7` (open finding, `octal_separator_rejected`); `-07` (`Located` fails only because the base
+  differs; the value is right, `signed_octal_digit_value`); and — found by this proof — a *signed*
+  token ending in the radix point such as `-5.`: `scan_base` searches `[str, str+length-1)`, misses
+  the point, counts one digit too many and `parse_string` runs off the end
+  (`signed_trailing_point_rejected`, confirmed on the real code: `assert: digit`).  Hence the goal as
+  first stated (two exclusions) is false: `first_statement_refuted`; `FullParseExact` is the corrected
+  statement and `full_parse_exact` proves it.  For signed tokens with a fraction the scanner's
+  `num_fractional_digits` is one short (`signed_fraction_count_short`); the run-time parser, the only
+  place a sign can occur, ignores that field.
 * `deduction_exact`, `deduction_digits`, `deduction_holds` — `v = (v >> tz) << tz`,
   `used_digits (|v| >> tz) = used_digits |v| − tz`, `|v| >> tz < 2^digits`: the types deduced by
   `make_elastic_scaled_integer` (and the other factories for non-negative constants) hold `v` exactly.
@@ -95,10 +113,9 @@ def Located (cs : List Char) (t : Token) (p : Params) : Prop :=
   (∀ d ∈ t.body.digits, d < t.body.base) ∧
   ∃ rest, readDigits p.base (cs.drop p.firstNumeral) p.numDigits = .ok (t.body.digits, rest)
 
-/-- run-time `parse<wide_integer<N>>` of a located well-formed token: the denoted value modulo `2^bits` -/
-theorem parse_exact_wide_partial (cs : List Char) (t : Token) (p : Params) (bits : Nat)
-    (_hw : token cs = some t) (hl : Located cs t p) :
-    parse (.wide bits) cs = .ok (W bits t.significand) := by
+/-- run-time `parse<wide_integer<N>>` of a located token: the denoted value modulo `2^bits` -/
+theorem parse_exact_wide_of_located (cs : List Char) (t : Token) (p : Params) (bits : Nat)
+    (hl : Located cs t p) : parse (.wide bits) cs = .ok (W bits t.significand) := by
   obtain ⟨hscan, hs, hbase, hneg, hd, rest, hr⟩ := hl
   unfold parse
   rw [hscan]; simp only [Res.bind_ok]
@@ -106,10 +123,9 @@ theorem parse_exact_wide_partial (cs : List Char) (t : Token) (p : Params) (bits
   unfold Token.significand sg
   rw [hbase, hneg]
 
-/-- run-time `parse<T>` for a signed built-in `T` (≥ 64 bits) that holds the value: exactly the
-value the token denotes -/
-theorem parse_exact_builtin_partial (cs : List Char) (t : Token) (p : Params) {ty : IntTy} (ht : SignedWide ty)
-    (_hw : token cs = some t) (hl : Located cs t p) (hfit : ty.InRange t.significand) :
+/-- run-time `parse<T>` of a located token for a signed built-in `T` (≥ 64 bits) that holds the value -/
+theorem parse_exact_builtin_of_located (cs : List Char) (t : Token) (p : Params) {ty : IntTy} (ht : SignedWide ty)
+    (hl : Located cs t p) (hfit : ty.InRange t.significand) :
     parse (.builtin ty) cs = .ok t.significand := by
   obtain ⟨hscan, hs, hbase, hneg, hd, rest, hr⟩ := hl
   have hsig : t.significand = sg p.isNegative (positional p.base t.body.digits) := by
@@ -119,17 +135,153 @@ theorem parse_exact_builtin_partial (cs : List Char) (t : Token) (p : Params) {t
   rw [hscan]; simp only [Res.bind_ok]
   rw [parseString_builtin hs ht p.isNegative _ _ _ rest hr (by rw [hbase]; exact hd) (by rw [← hsig]; exact hfit), hsig]
 
-/-- the full statement the `parse_exact_*_partial` theorems fall short of: every well-formed token is
-located.  Two kinds of token are excluded because the statement is false of the code there:
-an octal token with a separator right after the leading `0` (open finding
-`C15.octal_separator_after_prefix`), and a *signed* one-digit octal token such as `-07`, which
-`scan_base` reads as the two-digit decimal `07` (`offset + 1 >= num_non_separators`) — same value,
-different base, so `Located` as stated does not hold although the result is right (the driver's
-oracle accepts exactly this variation). -/
+/-- run-time `parse<T>` of a located token for an unsigned built-in `T` (≥ 64 bits): modulo `2^bits` -/
+theorem parse_exact_unsigned_of_located (cs : List Char) (t : Token) (p : Params) {ty : IntTy} (ht : UnsignedWide ty)
+    (hl : Located cs t p) : parse (.builtin ty) cs = .ok (ty.wrap t.significand) := by
+  obtain ⟨hscan, hs, hbase, hneg, hd, rest, hr⟩ := hl
+  unfold parse
+  rw [hscan]; simp only [Res.bind_ok]
+  rw [parseString_unsigned hs ht p.isNegative _ _ _ rest hr (by rw [hbase]; exact hd)]
+  unfold Token.significand sg
+  rw [hbase, hneg]
+
+/-! ### the scanner/grammar link -/
+
+/-- **every well-formed token outside the three corners is located**, with the parameters the
+grammar dictates (`ParseProofs.expectedParams`) -/
+theorem located_of_wellFormed (cs : List Char) (t : Token) (hw : token cs = some t)
+    (h1 : ¬ OctSep cs t) (h2 : ¬ SignedOctalDigit t) (h3 : ¬ SignedTrailingPoint t) :
+    Located cs t (expectedParams t) := by
+  obtain ⟨hscan, rest, hr⟩ := token_scanned cs t hw h1 h2 h3
+  obtain ⟨hst, hlt⟩ := token_stride cs t hw
+  exact ⟨hscan, hst, rfl, rfl, hlt, rest, hr⟩
+
+/-- what `scan_string` returns for a well-formed token of any length: the grammar's sign, base, stride,
+digit count, (unsigned tokens) number of fractional digits, a `num_bits` bounding the magnitude, and a
+first numeral behind which stand exactly the grammar's digits -/
+theorem scan_exact (cs : List Char) (t : Token) (hw : token cs = some t)
+    (h1 : ¬ OctSep cs t) (h2 : ¬ SignedOctalDigit t) (h3 : ¬ SignedTrailingPoint t) :
+    ∃ p, scanString cs = .ok p ∧ p.isNegative = t.negative ∧ p.base = t.body.base ∧ StrideOK p.base p.stride ∧
+      p.numDigits = t.body.digits.length ∧ (t.signed = false → p.numFrac = t.body.frac) ∧
+      positional t.body.base t.body.digits < 2 ^ p.numBits ∧
+      ∃ rest, readDigits p.base (cs.drop p.firstNumeral) p.numDigits = .ok (t.body.digits, rest) := by
+  obtain ⟨hscan, rest, hr⟩ := token_scanned cs t hw h1 h2 h3
+  refine ⟨expectedParams t, hscan, rfl, rfl, (token_stride cs t hw).1, rfl, ?_, token_numBits cs t hw, rest, hr⟩
+  intro hs
+  simp [expectedParams, expected, hs]
+
+/-- the goal the former `parse_exact_*_partial` theorems fell short of, corrected: three kinds of
+token are excluded because the statement is false of the code there — an octal token with a
+separator right after the leading `0` (open finding `C15.octal_separator_after_prefix`), a signed
+one-digit octal token such as `-07`, which `scan_base` reads as the two-digit decimal `07`
+(same value, different base), and a signed token ending in the radix point such as `-5.`
+(`scan_base` misses the point and counts one digit too many) -/
 def FullParseExact : Prop :=
+  ∀ (cs : List Char) (t : Token), token cs = some t →
+    ¬ OctSep cs t → ¬ SignedOctalDigit t → ¬ SignedTrailingPoint t → ∃ p, Located cs t p
+
+theorem full_parse_exact : FullParseExact :=
+  fun cs t hw h1 h2 h3 => ⟨expectedParams t, located_of_wellFormed cs t hw h1 h2 h3⟩
+
+/-- the goal as first stated, with two exclusions only -/
+def FullParseExactAsFirstStated : Prop :=
   ∀ (cs : List Char) (t : Token), token cs = some t →
     ¬ (cs.take 2 = ['0', '\''] ∨ (cs.drop 1).take 2 = ['0', '\'']) →
     ¬ (t.signed = true ∧ t.body.base = 8 ∧ t.body.digits.length = 1) → ∃ p, Located cs t p
+
+/-- … is false: `-5.` is well formed, `scan_string` counts 2 digits and `parse_string` finds one -/
+theorem first_statement_refuted : ¬ FullParseExactAsFirstStated := by
+  intro h
+  obtain ⟨p, hscan, _, _, _, _, rest, hr⟩ :=
+    h "-5.".toList ⟨true, true, ⟨10, [5], 0, true⟩⟩ (by decide) (by decide) (by decide)
+  have hp : scanString "-5.".toList = .ok ⟨true, 10, 18, 1, 7, 2, 0⟩ := by decide
+  rw [hp] at hscan
+  injection hscan with hscan
+  subst hscan
+  have : readDigits 10 ("-5.".toList.drop 1) 2 = .unreachable "assert: digit" := by decide
+  rw [this] at hr
+  cases hr
+
+/-- … and true once the third corner is excluded as well -/
+theorem first_statement_corrected (cs : List Char) (t : Token) (hw : token cs = some t)
+    (h1 : ¬ (cs.take 2 = ['0', '\''] ∨ (cs.drop 1).take 2 = ['0', '\'']))
+    (h2 : ¬ (t.signed = true ∧ t.body.base = 8 ∧ t.body.digits.length = 1))
+    (h3 : ¬ (t.signed = true ∧ t.body.hasPoint = true ∧ t.body.frac = 0)) : ∃ p, Located cs t p :=
+  full_parse_exact cs t hw (fun h => h1 (h.elim (fun a => Or.inl a.2) (fun a => Or.inr a.2))) h2 h3
+
+/-! ### run-time `parse` without the `Located` hypothesis -/
+
+/-- the scan facts of a signed one-digit octal token, read as decimal -/
+theorem signed_octal_digit_value (cs : List Char) (t : Token) (hw : token cs = some t)
+    (h1 : ¬ OctSep cs t) (h2 : SignedOctalDigit t) :
+    ∃ p ds rest, scanString cs = .ok p ∧ StrideOK p.base p.stride ∧ (∀ d ∈ ds, d < p.base) ∧
+      readDigits p.base (cs.drop p.firstNumeral) p.numDigits = .ok (ds, rest) ∧
+      sg p.isNegative (positional p.base ds) = t.significand := by
+  obtain ⟨s, c, d, rfl, hs, hc, h8, hd⟩ := signed_octal_digit_cases cs t hw h1 h2
+  have hneg : (s = '+' ∧ t.negative = false) ∨ (s = '-' ∧ t.negative = true) := hs
+  obtain ⟨hscan, hr⟩ := signed_octal_digit_scanned s c d t.negative hneg hc
+  have hlt : d < 8 := (digitValue_range hc).1
+  refine ⟨_, [0, d], [], hscan, Or.inl ⟨rfl, rfl⟩, ?_, hr, ?_⟩
+  · intro x hx
+    simp only [List.mem_cons, List.not_mem_nil, or_false] at hx
+    show x < 10
+    rcases hx with rfl | rfl <;> omega
+  · unfold Token.significand sg
+    rw [h8, hd]
+    simp [positional]
+
+/-- what every well-formed token outside `0'7` and `-5.` gives `parse_string` to work on -/
+theorem scan_for_parse (cs : List Char) (t : Token) (hw : token cs = some t)
+    (h1 : ¬ OctSep cs t) (h3 : ¬ SignedTrailingPoint t) :
+    ∃ p ds rest, scanString cs = .ok p ∧ StrideOK p.base p.stride ∧ (∀ d ∈ ds, d < p.base) ∧
+      readDigits p.base (cs.drop p.firstNumeral) p.numDigits = .ok (ds, rest) ∧
+      sg p.isNegative (positional p.base ds) = t.significand := by
+  by_cases h2 : SignedOctalDigit t
+  · exact signed_octal_digit_value cs t hw h1 h2
+  · obtain ⟨hscan, hs, hbase, hneg, hd, rest, hr⟩ := located_of_wellFormed cs t hw h1 h2 h3
+    refine ⟨_, _, rest, hscan, hs, hd, hr, ?_⟩
+    unfold Token.significand sg
+    rfl
+
+/-- **run-time `parse<wide_integer<N>>`** (multi-limb result) of a well-formed token of any length:
+the denoted value modulo `2^bits` -/
+theorem parse_exact_wide (cs : List Char) (t : Token) (bits : Nat) (hw : token cs = some t)
+    (h1 : ¬ OctSep cs t) (h3 : ¬ SignedTrailingPoint t) :
+    parse (.wide bits) cs = .ok (W bits t.significand) := by
+  obtain ⟨p, ds, rest, hscan, hs, hd, hr, hv⟩ := scan_for_parse cs t hw h1 h3
+  unfold parse
+  rw [hscan]; simp only [Res.bind_ok]
+  rw [parseString_wide hs bits p.isNegative _ _ _ rest hr hd, hv]
+
+/-- **run-time `parse<T>`** for a signed built-in `T` (≥ 64 bits) that holds the value: exactly the
+value the token denotes, and no step is undefined -/
+theorem parse_exact_builtin (cs : List Char) (t : Token) {ty : IntTy} (ht : SignedWide ty) (hw : token cs = some t)
+    (h1 : ¬ OctSep cs t) (h3 : ¬ SignedTrailingPoint t) (hfit : ty.InRange t.significand) :
+    parse (.builtin ty) cs = .ok t.significand := by
+  obtain ⟨p, ds, rest, hscan, hs, hd, hr, hv⟩ := scan_for_parse cs t hw h1 h3
+  unfold parse
+  rw [hscan]; simp only [Res.bind_ok]
+  rw [parseString_builtin hs ht p.isNegative _ _ _ rest hr hd (by rw [hv]; exact hfit), hv]
+
+/-- **run-time `parse<T>`** for an unsigned built-in `T` (`uint64`, `unsigned __int128`): the denoted
+value modulo `2^bits` (unsigned arithmetic wraps; nothing is undefined) -/
+theorem parse_exact_unsigned (cs : List Char) (t : Token) {ty : IntTy} (ht : UnsignedWide ty) (hw : token cs = some t)
+    (h1 : ¬ OctSep cs t) (h3 : ¬ SignedTrailingPoint t) :
+    parse (.builtin ty) cs = .ok (ty.wrap t.significand) := by
+  obtain ⟨p, ds, rest, hscan, hs, hd, hr, hv⟩ := scan_for_parse cs t hw h1 h3
+  unfold parse
+  rw [hscan]; simp only [Res.bind_ok]
+  rw [parseString_unsigned hs ht p.isNegative _ _ _ rest hr hd, hv]
+
+/-- … hence exactly the value for a non-negative token that fits -/
+theorem parse_exact_unsigned_fits (cs : List Char) (t : Token) {ty : IntTy} (ht : UnsignedWide ty) (hw : token cs = some t)
+    (h1 : ¬ OctSep cs t) (h3 : ¬ SignedTrailingPoint t) (hpos : t.negative = false)
+    (hfit : positional t.body.base t.body.digits < 2 ^ ty.bits) :
+    parse (.builtin ty) cs = .ok t.significand := by
+  rw [parse_exact_unsigned cs t ht hw h1 h3]
+  unfold Token.significand
+  simp only [hpos, Bool.false_eq_true, ite_false]
+  rw [unsignedWide_wrap_id ht hfit]
 
 /-- moving the trailing zero bits into the exponent loses nothing -/
 theorem deduction_exact (v : Int) : shiftOut v (trailingBits v) * 2 ^ trailingBits v = v :=
@@ -152,6 +304,18 @@ theorem udl_round_integer_rejected :
 
 theorem octal_separator_rejected : scanString "0'7".toList = .unreachable "invalid digit" := by decide
 
+/-- the corner found by the scanner/grammar proof: a signed token ending in the radix point.  The
+unsigned `5.` parses, `-5.` fails `CNL_ASSERT(digit)` (it reads past the end of the string) -/
+theorem signed_trailing_point_rejected :
+    parse (.builtin i64) "5.".toList = .ok 5 ∧ parse (.builtin i64) "-5.".toList = .unreachable "assert: digit" ∧
+    scanString "-5.".toList = .ok ⟨true, 10, 18, 1, 7, 2, 0⟩ := by decide
+
+/-- for a signed token with a fraction `num_fractional_digits` is one short (the last character is
+outside the searched range); the run-time parser does not use the field -/
+theorem signed_fraction_count_short :
+    scanString "-1.25".toList = .ok ⟨true, 10, 18, 1, 9, 3, 1⟩ ∧ scanString "1.25".toList = .ok ⟨false, 10, 18, 0, 9, 3, 2⟩ := by
+  decide
+
 theorem static_negative_power_of_two_traps :
     makeStaticInteger (-8) = .trap false ∧ makeStaticNumber (-8) = .trap false := by decide
 
@@ -160,6 +324,18 @@ theorem static_negative_power_of_two_traps :
 example : Located "0x1F'ff".toList ⟨false, false, ⟨16, [1, 15, 15, 15], 0, false⟩⟩ ⟨false, 16, 15, 2, 15, 4, 0⟩ := by
   refine ⟨by decide, by unfold StrideOK; decide, rfl, rfl, by decide, [], by decide⟩
 example : token "0x1F'ff".toList = some ⟨false, false, ⟨16, [1, 15, 15, 15], 0, false⟩⟩ := by decide
+example : ¬ OctSep "-0x1F'ff".toList ⟨true, true, ⟨16, [1, 15, 15, 15], 0, false⟩⟩ := by decide
+example : ¬ SignedOctalDigit ⟨true, true, ⟨16, [1, 15, 15, 15], 0, false⟩⟩ := by decide
+example : ¬ SignedTrailingPoint ⟨true, true, ⟨10, [1, 2, 5], 2, true⟩⟩ := by decide
+example : token "-1.25".toList = some ⟨true, true, ⟨10, [1, 2, 5], 2, true⟩⟩ := by decide
+example : SignedTrailingPoint ⟨true, true, ⟨10, [5], 0, true⟩⟩ := by decide
+example : token "-07".toList = some ⟨true, true, ⟨8, [7], 0, false⟩⟩ ∧ SignedOctalDigit ⟨true, true, ⟨8, [7], 0, false⟩⟩ ∧
+    parse (.builtin i64) "-07".toList = .ok (-7) := by decide
+example : OctSep "0'7".toList ⟨false, false, ⟨8, [7], 0, false⟩⟩ := by decide
+example : UnsignedWide u64 ∧ UnsignedWide u128 := ⟨⟨rfl, by decide⟩, ⟨rfl, by decide⟩⟩
+example : parse (.builtin u64) "18446744073709551615".toList = .ok 18446744073709551615 := by decide
+example : parse (.builtin u64) "-1".toList = .ok 18446744073709551615 := by decide
+example : expectedParams ⟨false, false, ⟨16, [1, 15, 15, 15], 0, false⟩⟩ = ⟨false, 16, 15, 2, 15, 4, 0⟩ := by decide
 example : parse (.wide 160) "-12345678901234567890123".toList = .ok (-12345678901234567890123) := by decide
 example : parse (.builtin i128) "0777".toList = .ok 511 := by decide
 example : StrideOK 10 18 := Or.inl ⟨rfl, rfl⟩
